@@ -86,6 +86,24 @@ let frames : n list list ref = ref []
 let rst : rstate ref = ref x_rinit
 let cst : cstate option ref = ref None
 let xrest : n list ref = ref []      (* input not yet consumed by the compressor model *)
+(* round 3: input side *)
+let ifile : n list ref = ref []
+let ist : istate ref = ref x_iinit
+(* segment syntax: <w|n>:<c0>:<seekok 0|1>:<consumed>,<hint>,<-|moved>/<consumed>,<hint>,<-|moved>/...   ("-" = no iteration) *)
+let parse_iseg (s : string) : iseg =
+  match String.split_on_char ':' s with
+  | [w; c0; ok; its] ->
+      let iters = if its = "-" then [] else
+        List.map (fun it -> match String.split_on_char ',' it with
+          | [c; h; f] -> IIter (n_of_string c, n_of_string h, (if f = "-" then None else Some (n_of_string f)))
+          | _ -> failwith "bad iter") (split_on '/' its) in
+      ISeg (w = "w", n_of_string c0, ok = "1", iters)
+  | _ -> failwith "bad segment"
+let show_ievent (e : ievent) : string =
+  match e with
+  | IoSeek (c0, ok) -> "S:" ^ string_of_n c0 ^ ":" ^ (if ok then "1" else "0")
+  | IoRead (h, k, ok) -> "I:" ^ string_of_n h ^ ":" ^ string_of_n k ^ ":" ^ (if ok then "1" else "0")
+  | Feed (b, o, bytes) -> "F:" ^ string_of_n b ^ ":" ^ string_of_n o ^ ":" ^ string_of_n (lenN bytes)
 
 let show_rres name (r : rres) : string =
   let st_s st = " cur=" ^ string_of_n st.r_cur ^ " doff=" ^ string_of_n st.r_doff ^ " tr=" ^ show_trace st.r_trace in
@@ -148,6 +166,12 @@ let () =
               let (((a, b), c), d) = x_acc !table (n_of_string i) in
               i ^ ":" ^ show_res string_of_n a ^ ":" ^ show_res string_of_n b ^ ":" ^ show_res string_of_n c ^ ":" ^ show_res string_of_n d) is)
         | ["rinit"] -> rst := x_rinit; "rinit"
+        | ["ifile"; p] -> ifile := bytes_of_file p; ist := x_iinit; "ifile " ^ string_of_n (lenN !ifile)
+        | "icall" :: segs ->
+            let ((st, evs), ok) = x_icall !ifile (List.map parse_iseg segs) !ist in
+            ist := st;
+            "icall ok=" ^ (if ok then "1" else "0") ^ " claim=" ^ (if st.i_claim then "1" else "0") ^ " ev=" ^
+            (match evs with [] -> "-" | _ -> String.concat ";" (List.map show_ievent evs))
         | ["r"; off; len; orc] ->
             let len = n_of_string len in
             show_rres ("r " ^ off ^ " " ^ string_of_n len) (x_read !frames !table !rst (x_dst0 len) len (n_of_string off) (parse_rorc orc))
